@@ -817,10 +817,27 @@ func genPoint(r *common.Rand) *pointCase {
 
 // ---------------------------------------------------------------- entry point
 
+// replayCases re-runs the "cases" array of a replay/corpus file.  (Not via
+// common.ReadReplay: that goes through float64 and durations need all 64 bits.)
 func replayCases(t *testing.T) {
-	for _, m := range common.ReadReplay(run.Replay) {
-		js, _ := json.Marshal(rawify(m))
-		switch m["op"] {
+	raw, err := os.ReadFile(run.Replay)
+	if err != nil {
+		panic(err)
+	}
+	var doc struct {
+		Cases []json.RawMessage `json:"cases"`
+	}
+	if err := json.Unmarshal(raw, &doc); err != nil {
+		panic(err)
+	}
+	for _, js := range doc.Cases {
+		var head struct {
+			Op string `json:"op"`
+		}
+		if err := json.Unmarshal(js, &head); err != nil {
+			continue
+		}
+		switch head.Op {
 		case "T", "A":
 			var c scriptCase
 			if err := json.Unmarshal(js, &c); err != nil {
@@ -832,23 +849,15 @@ func replayCases(t *testing.T) {
 			if err := json.Unmarshal(js, &c); err != nil {
 				panic(err)
 			}
+			if c.FDen == 0 {
+				c.FDen = 1
+			}
+			if c.JDen == 0 {
+				c.JDen = 1
+			}
 			pointCaseRun(&c)
 		}
 	}
-}
-
-// ReadReplay stringifies values; turn them back into JSON values.
-func rawify(m map[string]string) map[string]json.RawMessage {
-	out := map[string]json.RawMessage{}
-	for k, v := range m {
-		if json.Valid([]byte(v)) && (k != "op" && k != "body" && k != "manifest" && k != "data" && k != "which") {
-			out[k] = json.RawMessage(v)
-		} else {
-			js, _ := json.Marshal(v)
-			out[k] = js
-		}
-	}
-	return out
 }
 
 func TestVerif(t *testing.T) {
